@@ -502,6 +502,8 @@ type SeriesSketchesResponse struct {
 
 func (r *SeriesSketchesResponse) MarshalBinary() ([]byte, error) {
 	var pb internal.SeriesSketchesResponse
+	// both fields are required by the schema; on the error path there are no sketches
+	pb.Sketch, pb.TSSketch = []byte{}, []byte{}
 	if r.Sketch != nil {
 		buf, err := r.Sketch.MarshalBinary()
 		if err != nil {
@@ -581,6 +583,8 @@ type MeasurementsSketchesResponse struct {
 
 func (r *MeasurementsSketchesResponse) MarshalBinary() ([]byte, error) {
 	var pb internal.MeasurementsSketchesResponse
+	// both fields are required by the schema; on the error path there are no sketches
+	pb.Sketch, pb.TSSketch = []byte{}, []byte{}
 	if r.Sketch != nil {
 		buf, err := r.Sketch.MarshalBinary()
 		if err != nil {
